@@ -1,13 +1,16 @@
 package main
 
 import (
+	"bytes"
 	"fmt"
+	"strings"
 
 	"github.com/TheManticoreProject/Manticore/crypto/ntlmv1"
 	"github.com/TheManticoreProject/Manticore/crypto/ntlmv2"
 
 	"verif/mc/purity"
 	rc "verif/ref/refcrypto"
+	rn "verif/ref/refntlm"
 	"verif/vf"
 )
 
@@ -88,6 +91,75 @@ func histories(c *vf.Ctx) {
 		}
 		return [][]byte{h[:0:0], append([]byte(nil), h[32:40]...)}
 	})
+	// one NTLMv2 value whose exported fields are edited between calls (a spraying loop keeps the value and assigns
+	// the next user / password / domain / challenge): every later response is the response of the credential the
+	// value describes THEN, judged by the independent verifier. All ordered pairs of four credentials x which of
+	// the fields are assigned x whether a response was asked for before the edit.
+	type cred struct {
+		dom, user, pw string
+		sc, cc        [8]byte
+	}
+	creds := []cred{
+		{"Dom", "user", "Password", [8]byte{1, 2, 3, 4, 5, 6, 7, 8}, [8]byte{8, 7, 6, 5, 4, 3, 2, 1}},
+		{"corp", "Administrator", "é\U0001F600", [8]byte{0xff, 0xee, 0xdd, 0xcc, 0xbb, 0xaa, 0x99, 0x88}, [8]byte{0, 0, 0, 0, 0, 0, 0, 0x80}},
+		{"", "u", "", [8]byte{}, [8]byte{0xff, 0xff, 0xff, 0xff, 0xff, 0xff, 0xff, 0xff}},
+		{"Dom", "User", "password", [8]byte{1, 2, 3, 4, 5, 6, 7, 9}, [8]byte{8, 7, 6, 5, 4, 3, 2, 1}},
+	}
+	for ai, a := range creds {
+		for bi, b := range creds {
+			if ai == bi {
+				continue
+			}
+			for mask := 1; mask < 32; mask++ {
+				for _, asked := range []bool{true, false} {
+					cur := a
+					var resp []byte
+					var line string
+					var herr, lerr error
+					pn, msg, where := vf.Try(func() {
+						v, err := ntlmv2.NewNTLMv2(a.dom, a.user, a.pw, a.sc, a.cc)
+						if err != nil {
+							herr = err
+							return
+						}
+						if asked {
+							v.Hash()
+							v.ToHashcatString()
+						}
+						if mask&1 != 0 {
+							v.Username, cur.user = b.user, b.user
+						}
+						if mask&2 != 0 {
+							v.Password, cur.pw = b.pw, b.pw
+						}
+						if mask&4 != 0 {
+							v.Domain, cur.dom = b.dom, b.dom
+						}
+						if mask&8 != 0 {
+							v.ServerChallenge, cur.sc = b.sc, b.sc
+						}
+						if mask&16 != 0 {
+							v.ClientChallenge, cur.cc = b.cc, b.cc
+						}
+						resp, herr = v.Hash()
+						line, lerr = v.ToHashcatString()
+					})
+					c.Evals(1)
+					nt := rc.NT(cur.pw)
+					vd := rn.VerifyNTLMv2(nt, cur.user, cur.dom, cur.sc[:], resp)
+					okLine := false
+					if lerr == nil {
+						ferr, ok, _ := hashcat5600(line, nt)
+						okLine = ferr == nil && ok && strings.HasPrefix(line, cur.user+"::"+cur.dom+":")
+					}
+					c.Check("C02/history/ntlmv2/edited-value-answers-for-the-credential-it-describes-now", !pn && herr == nil && vd.LenOK && vd.ProofOK && len(resp) >= 40 && bytes.Equal(resp[32:40], cur.cc[:]) && okLine, func() string {
+						return fmt.Sprintf("NewNTLMv2(%q,%q,%q,%x,%x)%s, fields assigned (mask %05b: user,password,domain,server,client) from (%q,%q,%q,%x,%x): Hash() = %x (%v) proof-verifies=%v; ToHashcatString() = %q (%v) verifies=%v (panic=%v %s %s)",
+							a.dom, a.user, a.pw, a.sc, a.cc, map[bool]string{true: " + Hash() + ToHashcatString()", false: ""}[asked], mask, b.dom, b.user, b.pw, b.sc, b.cc, resp, herr, vd.ProofOK, line, lerr, okLine, pn, msg, where)
+					})
+				}
+			}
+		}
+	}
 }
 
 func ascii(s string) bool {
